@@ -31,6 +31,7 @@ prescribed ones wherever the operator is built from a prescribed spectrum.
 
 from __future__ import annotations
 
+import hashlib
 import itertools
 import sys
 import warnings
@@ -112,6 +113,94 @@ def _run(f):
         return True, f()
     except Exception as ex:  # the caller classifies
         return False, ex
+
+
+def _fp(x):
+    """fingerprint (bytes + layout flags) of an object handed to quimb."""
+    if x is None:
+        return None
+    if _sp().issparse(x):
+        return (x.format, x.shape) + tuple(_fp(getattr(x, n)) for n in ("data", "indices", "indptr", "row", "col", "offsets") if hasattr(x, n))
+    if isinstance(x, np.ndarray):
+        base = x
+        while isinstance(base.base, np.ndarray):
+            base = base.base
+        hb = None if base is x else hashlib.sha1(base.tobytes()).hexdigest()
+        fl = x.flags
+        return (type(x).__name__, x.shape, str(x.dtype), x.strides, fl.c_contiguous, fl.f_contiguous, fl.writeable, hashlib.sha1(x.tobytes()).hexdigest(), hb)
+    if hasattr(x, "_M"):
+        return ("action-only", _fp(x._M))
+    if hasattr(x, "fn") and hasattr(x, "args"):  # qu.Lazy (its dtype attribute is a documented cache, set on construction)
+        return ("lazy", tuple(_fp(a) if isinstance(a, np.ndarray) else repr(a) for a in x.args), repr(x.factor), tuple(x.shape))
+    return repr(x)
+
+
+def _same(a, b, rtol=1e-6):
+    """two answers to the same question agree (same structure, values to rtol)."""
+    if isinstance(a, tuple) or isinstance(b, tuple):
+        return isinstance(a, tuple) and isinstance(b, tuple) and len(a) == len(b) and all(_same(x, y, rtol) for x, y in zip(a, b))
+    try:
+        x, y = _dense(a), _dense(b)
+    except Exception:
+        return type(a) is type(b)
+    if x.dtype == object or y.dtype == object:
+        return x.shape == y.shape
+    if x.shape != y.shape:
+        return False
+    if x.size == 0:
+        return True
+    if not np.all(np.isfinite(x)) or not np.all(np.isfinite(y)):
+        return bool(np.array_equal(np.isfinite(x), np.isfinite(y)))
+    return float(np.max(np.abs(x - y))) <= rtol * max(float(np.max(np.abs(x))), 1e-300) + 1e-12
+
+
+def _run2(f, objs, reseed=None):
+    """INPUT PURITY + repeatability: evaluate ``f`` (a call of the real entry
+    point on the objects in ``objs``), require every object bit-identical
+    (bytes, strides, flags, and the buffer behind a view) afterwards, then ask
+    the same question again on the same objects and require the same answer.
+    Returns (ok, out, problem-or-None)."""
+    names = list(objs)
+    before = [_fp(objs[n]) for n in names]
+    ok, out = _run(f)
+    changed = [n for n, b in zip(names, before) if _fp(objs[n]) != b]
+    if changed:
+        return ok, out, ("input-mutated", "the call modified its input(s) %s in place" % "+".join(changed), {"mutated": "+".join(changed)})
+    if ok:
+        if reseed is not None:
+            reseed()
+        ok2, out2 = _run(f)
+        changed = [n for n, b in zip(names, before) if _fp(objs[n]) != b]
+        if changed:
+            return ok, out, ("input-mutated", "the second identical call modified its input(s) %s in place" % "+".join(changed), {"mutated": "+".join(changed)})
+        if not ok2:
+            return ok, out, ("second-call", "the same call on the same objects %s the second time" % _exc_msg(out2), {})
+        if not _same(out, out2):
+            return ok, out, ("second-call", "the same call on the same objects gave a different answer the second time", {})
+    return ok, out, None
+
+
+def _layout(x, lay):
+    """the same array content in another memory layout."""
+    x = np.array(x)
+    if lay in (None, "C"):
+        return np.ascontiguousarray(x)
+    if lay == "F":
+        return np.asfortranarray(x)
+    if lay == "T":  # transposed VIEW of a C-ordered buffer
+        if x.ndim < 2:
+            return _layout(x, "S")
+        return np.ascontiguousarray(x.T).T
+    if lay == "S":  # strided slice VIEW of a larger buffer
+        big = np.zeros(tuple(2 * n for n in x.shape), dtype=x.dtype)
+        sl = tuple(slice(None, None, 2) for _ in x.shape)
+        big[sl] = x
+        return big[sl]
+    raise KeyError(lay)
+
+
+def _lay_of(rep):
+    return rep.split("-")[1] if rep in ("ndarray-F", "ndarray-T", "ndarray-S", "nd-F", "nd-T", "nd-S") else None
 
 
 def _exc_fail(ex):
@@ -279,6 +368,8 @@ def _rep(A, rep):
     qu, sp = _qu(), _sp()
     if rep == "ndarray":
         return np.array(A)
+    if rep in ("ndarray-F", "ndarray-T", "ndarray-S", "nd-F", "nd-T", "nd-S"):
+        return _layout(A, _lay_of(rep))
     if rep == "qarray":
         return qu.qarray(np.array(A))
     if rep == "csr":
@@ -340,9 +431,14 @@ def _match_subset(vals, refv, tol):
     return True, None
 
 
+ZERO_TARGETS = {"z0": 0, "z0.0": 0.0, "z-0.0": -0.0, "znp": np.float64(0.0)}
+
+
 def _sigma_of(tag, lam):
     if tag is None:
         return None
+    if tag in ZERO_TARGETS:  # a target of EXACTLY zero, in every spelling a caller may use
+        return ZERO_TARGETS[tag]
     x = np.sort(np.real(np.asarray(lam)))
     if len(x) == 1:
         return float(x[0] + {"in": 0.3, "out": -0.7, "on": 0.0, "mid": 0.5}[tag])
@@ -442,17 +538,21 @@ def _rayleigh(v, A, Bm=None):
 # --------------------------------------------------------------------------- #
 
 W_NUMPY_H = [("SA", None), ("LA", None), ("LM", None), ("SM", None), (None, None), ("TR", "in"), ("TR", "out"), ("TR", "on"), ("TR", "mid"), (None, "in"), ("SR", None), ("LR", None), ("TM", "in")]
+W_NUMPY_H += [(None, "z0"), (None, "z0.0"), (None, "z-0.0"), (None, "znp"), ("TR", "z0"), (None, "on"), (None, "mid"), (None, "out")]
 W_NUMPY_G = [("SA", None), ("LA", None), ("SR", None), ("LR", None), ("SI", None), ("LI", None), ("LM", None), ("SM", None), (None, None), ("TR", "in"), ("TM", "in"), ("TI", "in"), (None, "in")]
+W_NUMPY_G += [(None, "z0"), (None, "z0.0"), (None, "z-0.0"), (None, "znp"), (None, "on"), (None, "mid")]
 FAMILY = {True: {"vec": "eigh", "val": "eigvalsh", "vecs": "eigvecsh"}, False: {"vec": "eig", "val": "eigvals", "vecs": "eigvecs"}}
 
 
-def _w_scipy(herm, d, complex_data, linop):
+def _w_scipy(herm, d, complex_data, linop, zero_ok=True):
     if herm:
         w = [("SA", None), ("LA", None), ("LM", None), (None, None)]
         if d <= 20:
             w.append(("SM", None))
         if not linop:
-            w += [("TR", "in"), ("TR", "out"), (None, "in")]
+            w += [("TR", "in"), ("TR", "out"), (None, "in"), (None, "out")]
+            if zero_ok:  # exact-zero target (shift-invert needs a non-singular operator)
+                w += [(None, "z0"), (None, "z0.0"), (None, "z-0.0"), (None, "znp"), ("TR", "z0.0")]
         return w
     w = [("LM", None), ("LR", None), ("SR", None), (None, None), ("SA", None), ("LA", None)]
     if d <= 20:
@@ -461,6 +561,8 @@ def _w_scipy(herm, d, complex_data, linop):
         w += [("LI", None), ("SI", None)]
     if not linop and d <= 32:
         w += [("TR", "in"), (None, "in")]
+        if zero_ok:
+            w += [(None, "z0"), (None, "z0.0")]
     return w
 
 
@@ -476,7 +578,7 @@ def _proot(herm, which, sigtag, res, brep, v0tag, k):
     if res == "LOBPCG" and v0tag == "1d" and k > 1:
         return "lobpcg-v0-fewer-columns"
     if res == "NUMPY" and brep == "csr":
-        return "numpy-backend-sparse-B"
+        return "numpy-backend-sparse-B"  # (repaired in the repository: e1aee514)
     if (not herm) and res == "SCIPY" and which is None and sigtag is None:
         return "nonherm-default-which-scipy"
     return "none"
@@ -501,7 +603,7 @@ def _partial_subs(cell, d, herm, complex_data):
     elif grp == "krylov":  # SCIPY
         lim = d - 2  # (scipy solves complex Hermitian problems with the general driver: k < d - 1)
         for k in [k for k in (1, 2, 3) if k <= lim]:
-            for which, sig in _w_scipy(herm, d, complex_data, linop):
+            for which, sig in _w_scipy(herm, d, complex_data, linop, zero_ok=cell["op"][0] not in ("singular", "symm", "degen")):
                 for form, sort in combos:
                     add(form, k, which, sig, sort)
     elif grp == "lobpcg":
@@ -514,7 +616,7 @@ def _partial_subs(cell, d, herm, complex_data):
         k = cell["k"]
         ws = [("SA", None), ("LA", None), ("LM", None), (None, None)] if herm else [("LM", None), ("LR", None), (None, None)]
         if not linop and herm:  # (general problems with a target: see the assumptions)
-            ws += [("TR", "in"), (None, "in")]
+            ws += [("TR", "in"), (None, "in"), (None, "z0"), (None, "z0.0")]
         for which, sig in ws:
             for form, sort in [("vec", True), ("val", True)]:
                 add(form, k, which, sig, sort)
@@ -525,17 +627,17 @@ def _partial_subs(cell, d, herm, complex_data):
                 continue
             ws = [("SA", None), ("LA", None), (None, None)]
             if backend in ("NUMPY", "AUTO"):
-                ws += [("LM", None), ("SM", None), ("TR", "in")]
+                ws += [("LM", None), ("SM", None), ("TR", "in"), (None, "z0"), (None, "z0.0")]
             elif backend == "SCIPY":
-                ws += [("LM", None)] + ([("TR", "in")] if cell.get("B") != "linop" else [])
+                ws += [("LM", None)] + ([("TR", "in"), (None, "z0"), (None, "z0.0")] if cell.get("B") != "linop" else [])
             if not herm:
-                ws = [("LM", None), ("SR", None), ("LR", None), ("SM", None), ("TR", "in")]
+                ws = [("LM", None), ("SR", None), ("LR", None), ("SM", None), ("TR", "in"), (None, "z0.0")]
             for which, sig in ws:
                 for form, sort in combos:
                     add(form, k, which, sig, sort, "full" if res0 == "LOBPCG" else "std")
     elif grp == "proj":
         for k in (1, 2):
-            for which, sig in [("SA", None), ("LA", None)] + ([("TR", "in")] if backend != "LOBPCG" else []):
+            for which, sig in [("SA", None), ("LA", None)] + ([("TR", "in"), (None, "z0"), (None, "z0.0")] if backend != "LOBPCG" else []):
                 for form, sort in combos:
                     add(form, k, which, sig, sort, "full" if backend == "LOBPCG" else "std")
     elif grp == "alias":
@@ -543,6 +645,9 @@ def _partial_subs(cell, d, herm, complex_data):
             for which in ("SA", "LA"):
                 add("vecs", k, which, None, True)
                 add("vecs", k, which, None, False)
+            if backend.upper() != "LOBPCG" and cell["rep"] != "linop" and cell["op"][0] != "degen":
+                for sg in ("in", "z0", "z0.0"):
+                    add("vecs", k, None, sg, True)
         for form in ("groundstate", "groundenergy", "bound_spectrum"):
             add(form, 1, None, None, True)
         if backend.upper() == "LOBPCG":
@@ -570,7 +675,7 @@ def partial_cell(cell, common):
     n_eff = d
     if cell.get("B"):
         Bm = _metric(d, dt if complex_data else "f", op)
-        Brep = _rep(Bm, {"nd": "ndarray", "csr": "csr", "linop": "linop", "lazy": "lazy"}[cell["B"]])
+        Brep = _rep(Bm, {"nd": "ndarray"}.get(cell["B"], cell["B"]))
         if herm:
             L = np.linalg.cholesky(Bm)
             Li = np.linalg.inv(L)
@@ -581,7 +686,7 @@ def partial_cell(cell, common):
     if cell.get("P"):
         m = d // 2
         Pm = fill("isometry", (d, m), _dtype(dt), ("c17-P", op))
-        Prep = _rep(Pm, {"nd": "ndarray", "csr": "csr", "lazy": "lazy"}[cell["P"]])
+        Prep = _rep(Pm, {"nd": "ndarray"}.get(cell["P"], cell["P"]))
         lam = np.linalg.eigvalsh(Pm.conj().T @ A @ Pm)
         n_eff = m
     acc = _Acc("partial", ck, {})
@@ -627,14 +732,16 @@ def _partial_eval(acc, qu, s, e):
             kw["v0"] = fill("generic", (e["d"], k), vdt, ("c17-v0", e["op"], k))
         elif v0tag == "1d":
             kw["v0"] = fill("generic", (e["d"],), vdt, ("c17-v0", e["op"], 1))
-        else:
-            qu.seed_rand(1234)
+        qu.seed_rand(1234)  # (a too-narrow / absent start block is completed with qu.randn columns)
     if res == "SCIPY" and form != "fallback" or (backend.upper() == "AUTO" and res == "NUMPY"):
         kw["v0"] = fill("generic", (n,), vdt, ("c17-v0", e["op"], "1d"))
     if form == "bound_spectrum":
         kw.pop("v0", None)  # forwarded to both solves; keep the default call
         if res == "SCIPY":
             kw["v0"] = fill("generic", (n,), vdt, ("c17-v0", e["op"], "1d"))
+    lay = _lay_of(e["rep"])
+    if lay is not None and isinstance(kw.get("v0"), np.ndarray):
+        kw["v0"] = _layout(kw["v0"], lay)
     entry = FAMILY[herm].get(form, form) if form != "fallback" else FAMILY[herm]["vec"]
     root = _proot(herm, which, sigtag, res, e["brep"], v0tag if (res == "LOBPCG" and form != "fallback") else None, k)
     sig = dict(entry=entry, backend=backend.upper(), res=res_sig, herm=herm, root=root)
@@ -649,7 +756,23 @@ def _partial_eval(acc, qu, s, e):
             expect = (KeyError, "lobpcg:which=%s:KeyError" % weff)
         elif res == "SCIPY" and not herm and which in ("SA", "LA"):
             expect = (ValueError, "scipy:non-hermitian:which=%s:ValueError" % which)
-    ok, out = _run(lambda: getattr(qu, entry)(e["Arep"], **kw))
+    objs = {"A": e["Arep"], "B": e["Brep"], "P": e["Prep"], "v0": kw.get("v0")}
+    reseed = lambda: qu.seed_rand(1234)  # noqa: E731
+    if res == "LOBPCG" and form != "fallback":
+        # scipy.sparse.linalg.lobpcg orthonormalises its start block in place (scipy behaviour, passed
+        # through): v0 is not fingerprinted there and is restored before the repeated call
+        v0obj = objs.pop("v0")
+        if isinstance(v0obj, np.ndarray):
+            saved = v0obj.copy()
+
+            def reseed():
+                qu.seed_rand(1234)
+                np.copyto(v0obj, saved)
+
+    ok, out, pb = _run2(lambda: getattr(qu, entry)(e["Arep"], **kw), objs, reseed=reseed)
+    if pb is not None:
+        acc.bad(sub, pb[0], pb[1], **sig, **pb[2])
+        return
     if expect is not None and not ok:
         # outside the backend's documented domain: it must reject cleanly - or be right (judged below)
         if isinstance(out, expect[0]) and not isinstance(out, np.linalg.LinAlgError):
@@ -725,7 +848,7 @@ def partial_cells(tier):
     ops += [("cgen", "c"), ("rgen", "f"), ("hermG", "f"), ("hermG", "c")]
     for kd, dt in ops:
         for d in dsz:
-            for rep in ("ndarray", "qarray", "csr", "lazy", "lazy-csr", "lazy-scaled"):
+            for rep in ("ndarray", "qarray", "csr", "lazy", "lazy-csr", "lazy-scaled", "ndarray-F", "ndarray-T", "ndarray-S"):
                 for backend in ("NUMPY", "AUTO"):
                     if backend == "AUTO" and rep in ("qarray", "lazy-csr", "lazy-scaled"):
                         continue
@@ -737,12 +860,12 @@ def partial_cells(tier):
         for d in ksz:
             if kd == "neardeg" and d > 20:
                 continue
-            for rep in ("ndarray", "qarray", "csr", "linop", "lazy", "lazy-csr"):
+            for rep in ("ndarray", "qarray", "csr", "linop", "lazy", "lazy-csr", "ndarray-F", "ndarray-S"):
                 add(grp="krylov", op=(kd, d, dt), backend="SCIPY", rep=rep, full=(rep in ("ndarray", "linop")) or not quick)
     # --- LOBPCG -------------------------------------------------------------
     for kd, dt in [(kd, dt) for kd in ("herm", "gapped", "psd") for dt in "fc"] + [("cgen", "c")]:
         for d in (12, 40) if quick else (12, 24, 40, 64):
-            for rep in ("ndarray", "qarray", "csr", "linop", "lazy"):
+            for rep in ("ndarray", "qarray", "csr", "linop", "lazy", "ndarray-F", "ndarray-S"):
                 if kd == "cgen" and rep != "ndarray":
                     continue
                 add(grp="lobpcg", op=(kd, d, dt), backend="LOBPCG", rep=rep, full=(rep == "ndarray") or not quick)
@@ -754,7 +877,7 @@ def partial_cells(tier):
         for kd, dt in [("herm", "f"), ("herm", "c"), ("gapped", "c"), ("cgen", "c"), ("rgen", "f")]:
             if quick and d >= 99 and kd in ("cgen", "rgen"):
                 continue
-            for rep in ("ndarray", "csr", "linop", "lazy"):
+            for rep in ("ndarray", "csr", "linop", "lazy", "ndarray-F"):
                 add(grp="auto", op=(kd, d, dt), backend="AUTO", rep=rep, k=k)
     # --- generalised problems with a PD metric --------------------------------
     for kd, dt in [("herm", "f"), ("herm", "c"), ("gapped", "c"), ("cgen", "c")]:
@@ -763,12 +886,15 @@ def partial_cells(tier):
                 if kd == "cgen" and backend != "NUMPY":
                     continue
                 for B in ("nd", "csr", "linop", "lazy"):
-                    if backend == "NUMPY" and B in ("csr", "linop"):
-                        continue  # eigs_numpy documents array_like / Lazy metrics only
+                    if backend == "NUMPY" and B == "linop":
+                        continue  # eigs_numpy documents array_like / sparse / Lazy metrics only
                     if backend == "AUTO" and B == "linop":
                         continue
                     for rep in ("ndarray", "csr"):
                         add(grp="metric", op=(kd, d, dt), backend=backend, rep=rep, B=B, full=(rep == "ndarray" and B == "nd") or not quick)
+                # memory layouts of the dense operator and metric (C / Fortran / transposed view / strided view)
+                for rep, B in [("ndarray-F", "nd"), ("ndarray-T", "nd"), ("ndarray-S", "nd"), ("ndarray", "nd-F"), ("ndarray", "nd-T"), ("ndarray", "nd-S"), ("ndarray-F", "nd-F"), ("ndarray-T", "nd-T"), ("ndarray-S", "nd-S")]:
+                    add(grp="metric", op=(kd, d, dt), backend=backend, rep=rep, B=B, full=not quick)
     for d, k in [(44, 1), (45, 1)]:
         for B in ("nd", "csr"):
             add(grp="auto", op=("herm", d, "c"), backend="AUTO", rep="csr", B=B, k=k)
@@ -779,13 +905,15 @@ def partial_cells(tier):
                 for P in ("nd", "csr", "lazy"):
                     for rep in ("ndarray", "csr"):
                         add(grp="proj", op=(kd, d, dt), backend=backend, rep=rep, P=P, full=(P == "nd") or not quick)
+                for rep, P in [("ndarray-F", "nd"), ("ndarray-S", "nd"), ("ndarray", "nd-F"), ("ndarray", "nd-T"), ("ndarray", "nd-S"), ("ndarray-T", "nd-T")]:
+                    add(grp="proj", op=(kd, d, dt), backend=backend, rep=rep, P=P, full=not quick)
     # --- aliases ----------------------------------------------------------------
     for kd, dt in [("herm", "f"), ("herm", "c"), ("gapped", "c"), ("degen", "c")]:
         for d in (6, 12, 45):
             for backend in ("auto", "numpy", "scipy", "lobpcg"):  # documented case-insensitive
                 if kd == "degen" and (backend in ("scipy", "lobpcg") or d == 45):
                     continue
-                for rep in ("ndarray", "csr", "linop"):
+                for rep in ("ndarray", "csr", "linop", "ndarray-F"):
                     if rep == "linop" and (backend == "numpy" or kd == "degen"):
                         continue  # (AUTO sends an action-only operator to ARPACK)
                     add(grp="alias", op=(kd, d, dt), backend=backend, rep=rep)
@@ -868,13 +996,19 @@ def full_cell(cell, common):
                 # the direct computation with the block-wise spectrum
                 lam_ref = lam_direct if autoblock else lam_blocks
                 for sort in (True, False):
-                    for rep in ("ndarray", "qarray"):
+                    for rep in ("ndarray", "qarray", "ndarray-F", "ndarray-T", "ndarray-S"):
                         if autoblock and not herm and not (sort and rep == "ndarray"):
                             continue  # one documented rejection per entry point is enough
+                        if _lay_of(rep) is not None and not sort:
+                            continue
                         sub = "%s|autoblock=%s|%s|%s" % (entry, autoblock, "sort" if sort else "nosort", rep)
                         root = "autoblock-values-only-complex" if (autoblock and herm and form == "val" and dt == "c") else "none"
                         sig = dict(entry=entry, autoblock=autoblock, herm=herm, root=root)
-                        ok, out = _run(lambda: getattr(qu, entry)(_rep(A, rep), autoblock=autoblock, sort=sort))
+                        Arep = _rep(A, rep)
+                        ok, out, pb = _run2(lambda: getattr(qu, entry)(Arep, autoblock=autoblock, sort=sort), {"A": Arep})
+                        if pb is not None:
+                            acc.bad(sub, pb[0], pb[1], **sig, **pb[2])
+                            continue
                         if autoblock and not herm:
                             if not ok and isinstance(out, NotImplementedError):
                                 acc.rej("autoblock:non-hermitian:NotImplementedError", sub)
@@ -952,7 +1086,7 @@ def window_cell(cell, common):
     ck = "%s/%s/%s" % ("-".join(str(x) for x in op), rep, backend)
     acc = _Acc("window", ck, {})
     Arep = _rep(A, rep)
-    dense_path = rep in ("ndarray", "qarray") or backend == "NUMPY"
+    dense_path = rep in ("ndarray", "qarray", "ndarray-F", "ndarray-T", "ndarray-S") or backend == "NUMPY"
     lmin, lmax = float(np.min(lam)), float(np.max(lam))
     R = lmax - lmin
     for form, entry in (("vec", "eigh_window"), ("val", "eigvalsh_window"), ("vecs", "eigvecsh_window")):
@@ -969,7 +1103,13 @@ def window_cell(cell, common):
                         kw["w_sz"] = wsz
                     if not dense_path and (res == "SCIPY" or backend == "AUTO"):
                         kw["v0"] = fill("generic", (d,), A.dtype, ("c17-v0", op, "1d"))
-                    ok, out = _run(lambda: getattr(qu, entry)(Arep, w0, k, **kw))
+                    lay = _lay_of(rep)
+                    if lay is not None and "v0" in kw:
+                        kw["v0"] = _layout(kw["v0"], lay)
+                    ok, out, pb = _run2(lambda: getattr(qu, entry)(Arep, w0, k, **kw), {"A": Arep, "v0": kw.get("v0")})
+                    if pb is not None:
+                        acc.bad(sub, pb[0], pb[1], **sig, **pb[2])
+                        continue
                     if not ok:
                         acc.bad(sub, _exc_fail(out), _exc_msg(out), **sig)
                         continue
@@ -1027,10 +1167,12 @@ def window_cells(tier):
     cells = []
     for kd, dt in [("herm", "f"), ("herm", "c"), ("gapped", "c"), ("degen", "c"), ("symm", "f"), ("neardeg", "c"), ("singular", "c")]:
         for d in (6, 12, 20) if quick else (4, 6, 12, 20, 32):
-            for rep in ("ndarray", "qarray", "csr"):
+            for rep in ("ndarray", "qarray", "csr", "ndarray-F", "ndarray-T", "ndarray-S"):
                 for backend in ("AUTO", "NUMPY", "SCIPY"):
                     if kd in ("degen", "singular") and rep == "csr" and backend == "SCIPY":
                         continue  # exactly degenerate spectra go to the dense backends only
+                    if _lay_of(rep) is not None and (backend != "AUTO" or d == 20):
+                        continue
                     cells.append({"op": [kd, d, dt], "rep": rep, "backend": backend})
     return cells
 
@@ -1121,11 +1263,15 @@ def svd_cell(cell, common):
     ck = "%s/%s/%s/%s" % (what, "-".join(str(x) for x in mat), cell.get("backend"), cell.get("rep"))
     acc = _Acc("svd", ck, {})
     if what == "svd":
-        for rep in ("ndarray", "qarray"):
+        for rep in ("ndarray", "qarray", "ndarray-F", "ndarray-T", "ndarray-S"):
             for rv in (True, False):
                 sub = "svd|%s|%s" % (rep, "vec" if rv else "val")
                 sig = dict(entry="svd", root="none")
-                ok, out = _run(lambda: qu.svd(_rep(M, rep), return_vecs=rv))
+                Mrep = _rep(M, rep)
+                ok, out, pb = _run2(lambda: qu.svd(Mrep, return_vecs=rv), {"A": Mrep})
+                if pb is not None:
+                    acc.bad(sub, pb[0], pb[1], **sig, **pb[2])
+                    continue
                 if not ok:
                     acc.bad(sub, _exc_fail(out), _exc_msg(out), **sig)
                     continue
@@ -1153,7 +1299,13 @@ def svd_cell(cell, common):
                 kw = dict(backend=backend, return_vecs=rv)
                 if res == "SCIPY" or backend == "AUTO":
                     kw["v0"] = fill("generic", (r,), M.dtype, ("c17-sv0", mat))
-                ok, out = _run(lambda: qu.svds(Mrep, k, **kw))
+                lay = _lay_of(rep)
+                if lay is not None and "v0" in kw:
+                    kw["v0"] = _layout(kw["v0"], lay)
+                ok, out, pb = _run2(lambda: qu.svds(Mrep, k, **kw), {"A": Mrep, "v0": kw.get("v0")})
+                if pb is not None:
+                    acc.bad(sub, pb[0], pb[1], **sig, **pb[2])
+                    continue
                 if not ok:
                     acc.bad(sub, _exc_fail(out), _exc_msg(out), **sig)
                     continue
@@ -1178,7 +1330,10 @@ def svd_cell(cell, common):
             typ = "2" if nt == "default" else NORM_SPELL[nt]
             sub = "norm|%r|%s" % (nt, ",".join(sorted(kw)))
             sig = dict(entry="norm", ntype=typ, sparse=sparse, root="none")
-            ok, out = _run(lambda: qu.norm(Mrep, **kw) if nt == "default" else qu.norm(Mrep, nt, **kw))
+            ok, out, pb = _run2(lambda: qu.norm(Mrep, **kw) if nt == "default" else qu.norm(Mrep, nt, **kw), {"A": Mrep, "v0": kw.get("v0")})
+            if pb is not None:
+                acc.bad(sub, pb[0], pb[1], **sig, **pb[2])
+                continue
             if sparse and typ == "t":
                 if not ok and isinstance(out, KeyError):
                     acc.rej("norm:trace:sparse:KeyError", sub)
@@ -1225,7 +1380,7 @@ def _rsvd_subs(acc, qu, M, s_ref, mat):
     r = min(m, n)
     rank = int(np.sum(s_ref > 1e-12))
     nrm = float(s_ref[0])
-    for rep in ("ndarray", "qarray"):
+    for rep in ("ndarray", "qarray", "ndarray-F", "ndarray-T", "ndarray-S"):
         Mrep = _rep(M, rep)
         # --- fixed k ('block' mode): exact on exactly low-rank input when k >= rank
         for k in sorted({rank, rank + 2, min(r, rank + 5)}):
@@ -1243,7 +1398,10 @@ def _rsvd_subs(acc, qu, M, s_ref, mat):
                             if g0:  # rsvd works on the tall orientation: the block lives on the short side
                                 kw["G0"] = fill("generic", (min(m, n), k + p), M.dtype, ("c17-G0", mat, k, p))
                             qu.seed_rand(4321)
-                            ok, out = _run(lambda: qu.rsvd(Mrep, k, **kw))
+                            ok, out, pb = _run2(lambda: qu.rsvd(Mrep, k, **kw), {"A": Mrep, "G0": kw.get("G0")}, reseed=lambda: qu.seed_rand(4321))
+                            if pb is not None:
+                                acc.bad(sub, pb[0], pb[1], **sig, **pb[2])
+                                continue
                             if not ok:
                                 acc.bad(sub, _exc_fail(out), _exc_msg(out), **sig)
                                 continue
@@ -1273,7 +1431,10 @@ def _rsvd_subs(acc, qu, M, s_ref, mat):
                                 root = "rsvd-adapt-svd-concatenation"
                             sig = dict(entry="rsvd", mode=mode, root=root, concat=bool(mode == "adapt" and _concat_reached(rank, k_start, use_qb, r)))
                             qu.seed_rand(4321)
-                            ok, out = _run(lambda: qu.rsvd(Mrep, 1e-8, mode=mode, q=q, use_qb=use_qb, k_start=k_start, compute_uv=uv))
+                            ok, out, pb = _run2(lambda: qu.rsvd(Mrep, 1e-8, mode=mode, q=q, use_qb=use_qb, k_start=k_start, compute_uv=uv), {"A": Mrep}, reseed=lambda: qu.seed_rand(4321))
+                            if pb is not None:
+                                acc.bad(sub, pb[0], pb[1], **sig, **pb[2])
+                                continue
                             if not ok:
                                 acc.bad(sub, _exc_fail(out), _exc_msg(out), **sig)
                                 continue
@@ -1310,7 +1471,10 @@ def _rsvd_subs(acc, qu, M, s_ref, mat):
                     sli_path = use_sli and (kmax is None or kmax == r)
                     sig = dict(entry="estimate_rank", root="rsvd-adapt-svd-concatenation" if (not sli_path and _concat_reached(rank, 2, 20, r if kmax is None else kmax)) else "none")
                     qu.seed_rand(4321)
-                    ok, out = _run(lambda: qu.estimate_rank(Mrep, 1e-8, k_max=kmax, use_sli=use_sli, q=q))
+                    ok, out, pb = _run2(lambda: qu.estimate_rank(Mrep, 1e-8, k_max=kmax, use_sli=use_sli, q=q), {"A": Mrep}, reseed=lambda: qu.seed_rand(4321))
+                    if pb is not None:
+                        acc.bad(sub, pb[0], pb[1], **sig, **pb[2])
+                        continue
                     if not ok:
                         acc.bad(sub, _exc_fail(out), _exc_msg(out), **sig)
                         continue
@@ -1351,8 +1515,10 @@ def svd_cells(tier):
                 if kind == "degen" and m > 20:
                     continue
                 for backend in ("AUTO", "NUMPY", "SCIPY"):
-                    for rep in ("ndarray", "qarray", "csr", "linop"):
+                    for rep in ("ndarray", "qarray", "csr", "linop", "ndarray-F", "ndarray-T", "ndarray-S"):
                         if rep == "linop" and backend == "NUMPY":
+                            continue
+                        if _lay_of(rep) is not None and (kind == "degen" or m > 45):
                             continue
                         if rep == "linop" and backend == "AUTO" and kind == "degen":
                             continue
@@ -1362,7 +1528,7 @@ def svd_cells(tier):
             for kind in ("generic", "herm", "graded"):
                 if kind == "herm" and m != n:
                     continue
-                for rep in ("ndarray", "qarray", "csr", "csc", "coo", "bsr"):
+                for rep in ("ndarray", "qarray", "csr", "csc", "coo", "bsr", "ndarray-F", "ndarray-T", "ndarray-S"):
                     cells.append({"what": "norm", "mat": [kind, m, n, dt], "rep": rep})
     for m, n in [(20, 15), (15, 20), (30, 30)] + ([] if quick else [(48, 25), (25, 48)]):
         for rank in (1, 2, 4):
@@ -1423,7 +1589,11 @@ def fn_cell(cell, common):
                 X = A * sc
                 sub = "expm|s=%s|herm=%s" % (sc, hflag)
                 sig = dict(entry="expm", hflag=hflag, sparse=rep == "csr", root="none")
-                ok, out = _run(lambda: qu.expm(_rep(X, rep), herm=hflag))
+                Xrep = _rep(X, rep)
+                ok, out, pb = _run2(lambda: qu.expm(Xrep, herm=hflag), {"A": Xrep})
+                if pb is not None:
+                    acc.bad(sub, pb[0], pb[1], **sig, **pb[2])
+                    continue
                 ok2, out2 = _run(lambda: qu.expm(_rep(-X, rep), herm=hflag))
                 if not (ok and ok2):
                     ex = out if not ok else out2
@@ -1450,12 +1620,18 @@ def fn_cell(cell, common):
             vec = fill("generic", (d,), "complex128", ("c17-vec", op))
         else:
             vec = fill("generic", (d, 3), "complex128", ("c17-vec", op))
+        if _lay_of(rep) is not None:  # the vector(s) in the operator's memory layout
+            vec = _layout(vec, _lay_of(rep)) if vk != "ket" else qu.qarray(_layout(vec, _lay_of(rep)))
         for sc in (1.0, -0.4j, 0.05, -2.5j):
             X = A * sc
             sub = "expm_multiply|s=%s" % (sc,)
             sig = dict(entry="expm_multiply", backend=backend, root="none")
             kw = {} if backend == "DEFAULT" else {"backend": backend}
-            ok, out = _run(lambda: qu.expm_multiply(_rep(X, rep), vec, **kw))
+            Xrep = _rep(X, rep)
+            ok, out, pb = _run2(lambda: qu.expm_multiply(Xrep, vec, **kw), {"A": Xrep, "vec": vec})
+            if pb is not None:
+                acc.bad(sub, pb[0], pb[1], **sig, **pb[2])
+                continue
             if not ok:
                 acc.bad(sub, _exc_fail(out), _exc_msg(out), **sig)
                 continue
@@ -1473,7 +1649,11 @@ def fn_cell(cell, common):
                 continue  # scipy's general root: only matrices without eigenvalues on the closed negative axis
             sub = "sqrtm|herm=%s" % hflag
             sig = dict(entry="sqrtm", hflag=hflag, root="none")
-            ok, out = _run(lambda: qu.sqrtm(_rep(A, rep), herm=hflag))
+            Arep = _rep(A, rep)
+            ok, out, pb = _run2(lambda: qu.sqrtm(Arep, herm=hflag), {"A": Arep})
+            if pb is not None:
+                acc.bad(sub, pb[0], pb[1], **sig, **pb[2])
+                continue
             if rep == "csr":
                 if not ok and isinstance(out, NotImplementedError):
                     acc.rej("sqrtm:sparse:NotImplementedError", sub)
@@ -1506,17 +1686,19 @@ def fn_cells(tier):
     dsz = (2, 3, 6, 12) if quick else (1, 2, 3, 4, 6, 8, 12, 20)
     for kd, dt in [("herm", "f"), ("herm", "c"), ("psd", "c"), ("degen", "c"), ("cgen", "c"), ("rgen", "f"), ("nilp", "f"), ("nilp", "c"), ("zero", "f")]:
         for d in dsz:
-            for rep in ("ndarray", "qarray", "csr"):
+            for rep in ("ndarray", "qarray", "csr", "ndarray-F", "ndarray-T", "ndarray-S"):
                 cells.append({"what": "expm", "op": [kd, d, dt], "rep": rep})
     for kd, dt in [("herm", "f"), ("herm", "c"), ("cgen", "c"), ("rgen", "f"), ("nilp", "c"), ("zero", "f")]:
         for d in (2, 6, 12, 40) if quick else (2, 3, 6, 12, 24, 40):
-            for rep in ("ndarray", "qarray", "csr", "linop"):
+            for rep in ("ndarray", "qarray", "csr", "linop", "ndarray-F", "ndarray-T", "ndarray-S"):
                 for vec in ("ket", "1d", "block"):
                     for backend in ("DEFAULT", "AUTO", "SCIPY"):
+                        if _lay_of(rep) is not None and backend != "DEFAULT":
+                            continue
                         cells.append({"what": "expm_multiply", "op": [kd, d, dt], "rep": rep, "vec": vec, "backend": backend})
     for kd, dt in [("psd", "f"), ("psd", "c"), ("herm", "f"), ("herm", "c"), ("singular", "c"), ("symm", "f"), ("degen", "c"), ("posgen", "f"), ("posgen", "c"), ("zero", "f")]:
         for d in dsz:
-            for rep in ("ndarray", "qarray", "csr"):
+            for rep in ("ndarray", "qarray", "csr", "ndarray-F", "ndarray-T", "ndarray-S"):
                 cells.append({"what": "sqrtm", "op": [kd, d, dt], "rep": rep})
     return cells
 
@@ -1558,7 +1740,10 @@ def run(ctx):
     ctx.bounds = {
         "tier": ctx.tier,
         "partial.dense_sizes": "2,3,6,12 (quick) / 2,3,4,5,6,8,12,16 (thorough); k in {1,2,3,d-1,d}",
-        "partial.dense_rules": "Hermitian: %s; general: %s (target tags: in = inside the widest gap, out = below the spectrum, on = on an eigenvalue, mid = tie)" % (W_NUMPY_H, W_NUMPY_G),
+        "partial.dense_rules": "Hermitian: %s; general: %s (target tags: in = inside the widest gap, out = below the spectrum, on = exactly an eigenvalue, mid = exact midpoint (tie), z0 / z0.0 / z-0.0 / znp = a target of EXACTLY zero spelled 0, 0.0, -0.0, np.float64(0); which=None means the rule is left at its default)" % (W_NUMPY_H, W_NUMPY_G),
+        "partial.zero_targets": "which=None with an exact-zero target for every entry point (eigh/eigvalsh/eigvecsh/eig/eigvals/eigvecs), backend (NUMPY, SCIPY, AUTO on both sides of the thresholds; LOBPCG rejects targets), representation, metric and projector cell",
+        "purity": "EVERY evaluation of every table: operator / metric / projector / start vector / start block / vector are fingerprinted (bytes, strides, flags, and the buffer behind a view) before and after the call and must be bit-identical; the same call is then repeated on the same objects and must give the same answer (1e-6)",
+        "layouts": "dense inputs in C order, Fortran order, transposed view of a C buffer, strided slice view of a larger buffer (operator; metric and projector crossed with the operator's layout; start vectors / blocks / vectors follow the operator's layout)",
         "partial.operator_kinds": "herm (generic), degen (exact multiplicities), neardeg (1e-3 pairs), symm (+-pairs), singular, psd, gapped, cgen (V diag V^-1 complex), rgen (real, conjugate pairs), hermG (Hermitian fed to the general solvers); float64 and complex128",
         "partial.krylov_sizes": "12,20 (quick) / 8,12,20,32 (thorough); k in {1,2,3}",
         "partial.lobpcg_sizes": "12,40 (quick) / 12,24,40,64 (thorough); start block: full (d,k) / 1-D / None (seeded)",
@@ -1585,6 +1770,7 @@ def run(ctx):
         "estimate_rank documented as low resolution: rank <= estimate <= rank + 12; rsvd(eps) judged by reconstruction and leading values, not by its length; rsvd(k) asserted exact only for k >= rank of the exactly low-rank input",
         "sqrtm(herm=False) only for operators without eigenvalues on the closed negative real axis; expm(herm=True) only for Hermitian input with a real prefactor",
         "every random generator is seeded (qu.seed_rand) or replaced by an explicit start vector / block",
+        "input purity exemption: scipy.sparse.linalg.lobpcg orthonormalises its start block X in place and quimb hands it a view of the caller's v0 - scipy behaviour passed through, so v0 is not fingerprinted on the LOBPCG path (operator, metric, projector are)",
     ]
     for name, fname, gen, ch in TABLES:
         if only and name not in only.split(","):
